@@ -7,6 +7,7 @@ import Tickit.Proof.LifeKeys
 import Tickit.Proof.LifeMouse
 import Tickit.Proof.LifeTopSw
 import Tickit.Proof.LifeTop
+import Tickit.Proof.LifeTopEnd
 import Tickit.Gen.Life
 /-
   Property C08 — no API history touches freed or foreign memory, and everything is released.
@@ -578,6 +579,21 @@ theorem top_lifetime_inv (start : XOp) (hstart : start.isNew = true) (ops : List
   obtain ⟨top, hr, T⟩ := top_no_ub_from_start start hstart ops h
   obtain ⟨f1, f2, f3, f4⟩ := T.facts
   exact ⟨top, hr, f1, f2, f3, f4, fun hf hl => T.f.inv.term_held hf (.inl hl), T.sw⟩
+
+/-- **all_released for the toplevel**: after any history of this layer, once the application has dropped every reference
+    it holds (`end`: windows from the highest handle down to the root window, pens, strings, buffers, the terminal; then
+    its references to the toplevel instance, the last of which runs `tickit_destroy`; then the further terminals),
+    nothing is left (`Top.anythingLeft`): every window, pen, string, buffer and the main terminal is freed and no
+    restacking request is queued, the toplevel instance is freed with all its watches, every further terminal is
+    freed, nobody stands in the list of SIGWINCH observers and the handler is no longer installed; and no walk of that
+    list has failed on the way. -/
+theorem top_all_released (start : XOp) (hstart : start.isNew = true) (ops : List XOp) (h : TopHistory ops) :
+    ∃ top, xrunOps extractedTop {} (start :: ops ++ [.base .«end»]) = .ok top ∧ top.anythingLeft = false ∧ top.fail = none :=
+  xrun_end extractedTop_trepaired start hstart ops h
+
+example : (match xrunOps extractedTop {} [.newtop 6 12, .base (.win 0 ⟨0, 0, 2, 2⟩ 0), .base .pen, .base (.setpen 1 (some 0)), .xnew, .xobs 0 true,
+    .tobs true, .ilater [.tunref], .itimer 5 [.win (.unref 1)], .iref, .base .«end»] with
+    | .ok t => (t.anythingLeft, t.fail) | _ => (true, none)) = (false, none) := by decide +kernel
 
 /-- Non-vacuity: a terminal reading from a pipe whose key handler drops the root window, the application's reference
     to the terminal and claims the event; a lone ESC that the timeout turns into a key; an instance whose deferred call
